@@ -6,6 +6,7 @@ The parser can be invoked standalone:
     python -m odml.tools.xmlparser file.odml
 """
 import csv
+import re
 import sys
 
 from os.path import basename
@@ -324,6 +325,11 @@ class XMLReader(object):
         :param string: XML string.
         :returns: a parsed odml.Document.
         """
+        # lxml refuses text (as opposed to bytes) that carries an encoding declaration;
+        # the text is already decoded, so the declaration has no meaning any more.
+        if isinstance(string, str):
+            string = re.sub(r"^\s*<\?xml[^>]*\?>", "", string, count=1)
+
         try:
             root = ET.XML(string, self.parser)
         except ET.XMLSyntaxError as exc:
@@ -436,6 +442,10 @@ class XMLReader(object):
             self.error("Attribute not supported, ignoring '%s=%s' " % (k, val), root)
 
         for node in root:
+            # Processing instructions and entity references are no odML content.
+            if not isinstance(node.tag, str):
+                continue
+
             node.tag = node.tag.lower()
             self.is_valid_argument(node.tag, fmt, root, node)
             if node.tag in fmt.arguments_keys:
@@ -477,7 +487,12 @@ class XMLReader(object):
 
         if insert_children:
             for child in children:
-                obj.append(child)
+                # e.g. a child with the name of one of its siblings cannot be added
+                try:
+                    obj.append(child)
+                except Exception as exc:
+                    self.error("Could not add <%s> to <%s>: %s\n" %
+                               (child.format().name, root.tag, str(exc)), root)
 
         return obj
 
